@@ -288,6 +288,39 @@ class Env:
                 lines.append("        pass")
             lines.append("    def __eq__(self, o): return type(o) is type(self) and vars(o) == vars(self)")
             lines.append("    __hash__ = None")
+        elif fl == "plain_mro":
+            # a plain annotated class whose members are declared along a three-level chain: the first by the root, the second by
+            # the middle class, the others by the class itself (which has the constructor)
+            eq = "    def __eq__(self, o): return type(o) is type(self) and vars(o) == vars(self)\n    __hash__ = None"
+            lines.append(f"class {name}_root:")
+            lines += [f"    {fn}: {src}" for fn, src, has_d, T in fields[:1]] or ["    pass"]
+            lines.append(f"class {name}_mid({name}_root):")
+            lines += [f"    {fn}: {src}" for fn, src, has_d, T in fields[1:2]] or ["    pass"]
+            lines.append(f"class {name}({name}_mid):")
+            lines += [f"    {fn}: {src}" for fn, src, has_d, T in fields[2:]]
+            args = "".join(f", {fn}" + ("=None" if has_d else "") for fn, _, has_d, _ in fields)
+            lines.append(f"    def __init__(self{args}):")
+            for fn, *_ in fields:
+                lines.append(f"        self.{fn} = {fn}")
+            lines.append(eq)
+        elif fl == "nt_sub":
+            # a class derived from a named tuple that adds only behaviour (no annotation of its own)
+            lines.append(f"class {name}_base(typing.NamedTuple):")
+            for fn, src, has_d, T in fields:
+                lines.append(f"    {fn}: {src}" + (f" = {dsrc[fn]}" if has_d else ""))
+            lines.append(f"class {name}({name}_base):")
+            lines.append("    __slots__ = ()")
+            lines.append("    def label(self):\n        return 'x'")
+        elif fl == "typeddict_inh3":
+            # three levels: a total root (the first key), a total=False middle (the optional keys), a total leaf (the others):
+            # the root's key stays required through the total=False class
+            req = [f for f in fields if not f[2]]
+            lines.append(f"class {name}_root(typing.TypedDict):")
+            lines += [f"    {fn}: {src}" for fn, src, has_d, T in req[:1]] or ["    pass"]
+            lines.append(f"class {name}_mid({name}_root, total=False):")
+            lines += [f"    {fn}: {src}" for fn, src, has_d, T in fields if has_d] or ["    pass"]
+            lines.append(f"class {name}({name}_mid):")
+            lines += [f"    {fn}: {src}" for fn, src, has_d, T in req[1:]] or ["    pass"]
         elif fl == "sig":
             # no class-level annotations: the members are the parameters of the constructor, the first
             # positional, the others keyword-only
